@@ -30,35 +30,35 @@ def P(theorems, quick, thorough, components, status, rule, explanation, assumpti
 PROPS = {
     'C01': P(
         ['C01_parse_total', 'C01_lexer_terminates', 'C01_renderers_total', 'C01_to_postgres_total', 'C01_to_param_postgres_total', 'C01_no_format_error'],
-        [('corpus', 0), ('enum', 1500), ('rand', 5000), ('lex', 2500), ('big', 0), ('nearmiss', 0), ('inject', 2000)],
-        [('corpus', 0), ('enum', 20000), ('rand', 60000), ('lex', 30000), ('big', 0), ('trees', 20000), ('inject', 30000), ('nearmiss', 0)],
+        [('corpus', 0), ('enum', 1500), ('rand', 5000), ('lex', 2500), ('big', 0), ('nearmiss', 0), ('inject', 2000), ('scale-list', 0), ('scale-giant', 0), ('scale-chain', 0), ('scale-prefix', 0), ('scale-layout', 0), ('scale-names', 0), ('scale-values', 0), ('scale-digits', 0)],
+        [('corpus', 0), ('enum', 20000), ('rand', 60000), ('lex', 30000), ('big', 0), ('trees', 20000), ('inject', 30000), ('nearmiss', 0), ('scale-list', 0), ('scale-giant', 0), ('scale-chain', 0), ('scale-prefix', 0), ('scale-layout', 0), ('scale-names', 0), ('scale-values', 0), ('scale-digits', 0)],
         PARSE + PRINT + SQL,
         'full: parser loop total within 4n+4 steps for every token list; all five renderers and both public wrappers return on every parse result; no bad formatting verb. Wall-clock cost of fmt/encoding-json is measured (observer watchdog), not proved.',
         'token sequences exhaustively to length 3 (quick) / 4 (thorough) over a 26-symbol alphabet x {no default field, d}, random structured queries with every leaf kind, random byte strings incl. invalid UTF-8/NUL, adversarial 2k/10k-token shapes; non-trivial = accepted by Parse (all renderers then run); distinct = distinct parse trees',
         'Theorems quantify over all byte strings, default fields and oracles. The correspondence check ties the model to /repo on every run; PANIC and HANG (watchdog) are observables.',
         ['oracle record answers as Go stdlib (served by the Go helper, sampled by the run)', 'Go runtime stack exhaustion beyond ~10^5 nesting is outside the model']),
     'C02': P(
-        ['C02_string_value_stays_in_its_literal', 'C02_field_name_is_one_identifier'],
-        [('corpus', 0), ('rand', 5000), ('quote', 2500), ('inject', 2500)],
-        [('corpus', 0), ('rand', 60000), ('quote', 30000), ('inject', 30000), ('enum', 5000)],
-        PARSE + SQL,
-        'partial: proved at scanner level (a string value is read back by the PostgreSQL scanner model as one constant equal to the value, for all byte strings; a field name as one quoted identifier). The grammar-level clause (one boolean expression, allowed node kinds only, column/constant provenance) is decided by running the PostgreSQL model (coq/Model/PgModel.v, extracted) on every SQL text the implementation returns.',
+        ['C02_string_value_stays_in_its_literal', 'C02_field_name_is_one_identifier', 'C02_fragment_sql_is_one_confined_expression'],
+        [('corpus', 0), ('rand', 5000), ('quote', 2500), ('inject', 2500), ('scale-list', 0), ('scale-names', 0), ('scale-values', 0), ('scale-digits', 0)],
+        [('corpus', 0), ('rand', 60000), ('quote', 30000), ('inject', 30000), ('enum', 5000), ('scale-list', 0), ('scale-names', 0), ('scale-values', 0), ('scale-digits', 0)],
+        PARSE + SQL + ['SqlToks'],
+        'partial: proved at scanner level (a string value is read back by the PostgreSQL scanner model as one constant equal to the value, for all byte strings; a field name as one quoted identifier) and at grammar level for the filterable fragment (for every tree of the fragment, any depth: the token sequence of its SQL - Spec/SqlFrag.tr, compared per case with the scanner model on the implementation text - is accepted by the PostgreSQL expression grammar as one expression built from allowed constructs only). Outside the fragment (floats, string ranges, regular expressions, parameterized text) and for column/constant provenance the clause is decided by running the PostgreSQL model (coq/Model/PgModel.v, extracted) on every SQL text the implementation returns.',
         'every SQL text ToPostgres/ToParameterizedPostgres returns on generated queries (hostile field names and values: quotes, backslashes, semicolons, comment openers, NUL, invalid UTF-8, NaN/Inf, >63-byte names); non-trivial = rendering succeeded and the text was read by the PostgreSQL model',
         'C02_check: pg_read(sql) must succeed, be built from allowed nodes only, every column must be a field/default field of the query and every string constant a (translated) value of the query.',
         ['PgModel is a conservative model of scan.l/gram.y validated one-directionally against pg_query in design; not re-validated at run time']),
     'C03': P(
-        ['C03_pattern_translation_preserves_meaning'],
-        [('corpus', 0), ('sem', 1700), ('sem', 1700), ('sem', 1700), ('rand', 2000)],
-        [('corpus', 0), ('sem', 20000), ('sem', 20000), ('sem', 20000), ('sem', 20000), ('rand', 20000)],
-        PARSE + ['Render', 'ToPostgres'],
-        'partial: proved so far is the pattern clause (SIMILAR TO on the translated pattern matches exactly what the Lucene pattern matches, for all patterns without % and _ and all strings). The leaf comparisons, ranges, value lists and the Boolean structure are decided by the executable semantics: the meaning of the query text (Spec/QuerySem.qsem on the model parse) against the meaning of the SQL text as the PostgreSQL model reads it (Spec/SqlSem.ssem on PgModel.pg_read), on probe rows hitting every region cut out by the query constants.',
+        ['C03_pattern_translation_preserves_meaning', 'C03_grammar_reads_the_query_structure', 'C03_sql_true_on_exactly_the_rows_of_the_query'],
+        [('corpus', 0), ('sem', 1700), ('sem', 1700), ('sem', 1700), ('rand', 2000), ('scale-list', 0), ('scale-digits', 0), ('scale-values', 0), ('scale-names', 0)],
+        [('corpus', 0), ('sem', 20000), ('sem', 20000), ('sem', 20000), ('sem', 20000), ('rand', 20000), ('scale-list', 0), ('scale-digits', 0), ('scale-values', 0), ('scale-names', 0)],
+        PARSE + ['Render', 'ToPostgres', 'SqlToks'],
+        'proved for the fragment with integer and string constants (Spec/SqlFrag.tr): for every tree (AND, OR, NOT, +, - over equality, comparisons, integer ranges with every inclusivity and open ends, value lists, wildcard patterns; any depth) PostgreSQL grammar reads from the SQL token sequence exactly the same Boolean combination of the same leaf predicates, and that expression is true on exactly the rows on which the query is true, for every row (numbers compare numerically - the decimal text of an integer denotes it - strings as strings, patterns by the translation theorem). The token sequence is tied to the renderer per case (scanner model on the implementation text = tr). Not proved: ToPostgres succeeds (per case), floats (their text comes from strconv: oracle), string ranges (K1, K2), the scanner step as a theorem over all texts. Those and everything else are decided by the executable semantics: the meaning of the query text (Spec/QuerySem.qsem on the model parse) against the meaning of the SQL text as the PostgreSQL model reads it (Spec/SqlSem.ssem on PgModel.pg_read), on probe rows hitting every region cut out by the query constants.',
         'fragment trees (equality, comparisons, ranges with every bound kind x inclusivity, value lists, patterns, AND/OR/NOT/+/-, parentheses, juxtaposition), each evaluated on up to 300 probe rows (all constants, +-1, all pairwise midpoints; strings: each constant, just above, just below, pattern instances and near misses); non-trivial = rendered and read back by the PostgreSQL model',
-        'the theorem C03_faithful over all trees and all rows is a growth item; the check is a search device plus the correspondence',
+        'C03_check evaluates qsem on the model parse against ssem on pg_read of the implementation SQL on probe rows; check_sqltoks compares the scanner model on the SQL text with SqlFrag.tr of the returned tree',
         ['PostgreSQL reading of the SQL text is the PgModel one; string order is byte order on both sides']),
     'C04': P(
         ['C04_placeholders_match_parameters', 'C04_parameters_are_the_values', 'C04_sql_text_independent_of_values', 'C04_render_param_returns'],
-        [('corpus', 0), ('rand', 4000), ('subst', 1500), ('quote', 1000), ('sem', 2500)],
-        [('corpus', 0), ('rand', 60000), ('subst', 20000), ('quote', 20000), ('sem', 40000)],
+        [('corpus', 0), ('rand', 4000), ('subst', 1500), ('quote', 1000), ('sem', 2500), ('scale-list', 0), ('scale-giant', 0), ('scale-digits', 0)],
+        [('corpus', 0), ('rand', 60000), ('subst', 20000), ('quote', 20000), ('sem', 40000), ('scale-list', 0), ('scale-giant', 0), ('scale-digits', 0)],
         PARSE + SQL,
         'partial: clause (a) placeholder count = parameter count proved for every tree of parser shape outside K13; clause (b) parameters = the values in left-to-right order with their Go kinds proved for every tree of parser shape; clause (d) same-kind trees render the same parameterized text proved for every tree of any shape; RenderParam total. Clause (c) equivalence after substitution is decided by C04_check on the implementation observations (probe rows) and by the correspondence.',
         'random structured queries, same-kind value substitutions (pairs), quoted/escaped values; non-trivial = both renderers succeeded',
@@ -66,8 +66,8 @@ PROPS = {
         ['oracle fact: ParseFloat rejects a text starting with a quote']),
     'C05': P(
         ['C05_print_parse_roundtrip', 'C05_printed_tree_parses_to_itself', 'C05_printed_text_parses_to_the_tree', 'C05_value_list'],
-        [('corpus', 0), ('trees', 8000)],
-        [('corpus', 0), ('trees', 120000), ('enum', 5000)],
+        [('corpus', 0), ('trees', 8000), ('scale-list', 0), ('scale-chain', 0), ('scale-prefix', 0)],
+        [('corpus', 0), ('trees', 120000), ('enum', 5000), ('scale-list', 0), ('scale-chain', 0), ('scale-prefix', 0)],
         PARSE,
         'full: for every spec tree (any depth) with parentheses wherever the table requires them (and anywhere else) the parser loop accepts exactly the expected tree, Validate accepts it, and - for ASCII text whose leaf tokens lex to themselves - Parse of the printed text returns it. For non-ASCII leaves the lexer step is checked per case by the driver (generator printer = Spec.pr through the model lexer).',
         'random spec trees to depth 3 (quick) / 5 (thorough), minimal and redundant parenthesisation, three spacing styles; the driver checks generator printer = Spec.pr and implementation tree = Spec.want',
@@ -75,8 +75,8 @@ PROPS = {
         []),
     'C06': P(
         ['C06_accepted_tree_is_a_derivation'],
-        [('corpus', 0), ('enum', 1500), ('rand', 5000), ('lex', 1500), ('nearmiss', 0)],
-        [('corpus', 0), ('enum', 30000), ('rand', 80000), ('lex', 20000), ('nearmiss', 0)],
+        [('corpus', 0), ('enum', 1500), ('rand', 5000), ('lex', 1500), ('nearmiss', 0), ('scale-list', 0), ('scale-chain', 0), ('scale-names', 0)],
+        [('corpus', 0), ('enum', 30000), ('rand', 80000), ('lex', 20000), ('nearmiss', 0), ('scale-list', 0), ('scale-chain', 0), ('scale-names', 0)],
         PARSE,
         'full: every accepted token list is laid over by its tree as a derivation (Lay), for all token lists.',
         'all token sequences to length 3/4 over 26 symbols x default field, random structured and damaged queries; non-trivial = accepted',
@@ -84,56 +84,56 @@ PROPS = {
         []),
     'C07': P(
         ['C07_juxtaposition_is_and', 'C07_same_parse', 'C07_same_parse_of_text', 'C07_local_step'],
-        [('corpus', 0), ('juxt', 2000)],
-        [('corpus', 0), ('juxt', 40000), ('enum', 5000)],
+        [('corpus', 0), ('juxt', 2000), ('scale-chain', 0), ('scale-prefix', 0)],
+        [('corpus', 0), ('juxt', 40000), ('enum', 5000), ('scale-chain', 0), ('scale-prefix', 0)],
         PARSE,
         'full: for all contexts pre, post and term tokens t1 t2, `pre t1 t2 post` and `pre t1 AND t2 post` give the same result - as final state of the parser loop, as result of parse_toks (loop + Validate), and as result of Parse on ASCII query text.',
         'pairs (all AND written / some AND nodes juxtaposed) of printed random trees, and pairs over arbitrary token sequences with two adjacent terminals; non-trivial = pair accepted',
         '', []),
     'C08': P(
         ['C08_quoted_value_is_one_token', 'C08_quoted_value_tree', 'C08_quoted_value_inline_sql', 'C08_quoted_value_parameter', 'C08_sql_constant_decodes_to_the_value'],
-        [('corpus', 0), ('quote', 6000)],
-        [('corpus', 0), ('quote', 100000)],
+        [('corpus', 0), ('quote', 6000), ('scale-values', 0)],
+        [('corpus', 0), ('quote', 100000), ('scale-values', 0)],
         PARSE + SQL,
         'quoting clause proved link by link for all texts w without a double quote: bytes -> tokens (lexer), tokens -> tree (parser loop + Validate: EQUALS(column, literal w)), tree -> inline SQL text (column = constant with doubled quotes) and -> parameter list ([w]), SQL constant -> value (PostgreSQL scanner model reads it back as w). Not proved: that the string-level doubling of Render and the byte-level one of the scanner lemma are the same function (both are checked per case), and the escaping clause, which is decided by C08_check per case (K7).',
         'random texts over an alphabet of operators, keywords, digits, wildcards, slashes, backslashes, whitespace, quotes, non-ASCII; quoted and escaped spellings',
         '', ['oracle facts: double quote, colon and the four whitespace runes are not letters or digits']),
     'C09': P(
         ['C09_keyword_case', 'C09_whitespace_same_tokens', 'C09_whitespace_same_parse', 'C09_redundant_parentheses', 'C09_redundant_parentheses_same_parse'],
-        [('corpus', 0), ('layout', 1500)],
-        [('corpus', 0), ('layout', 30000), ('enum', 5000)],
+        [('corpus', 0), ('layout', 1500), ('scale-layout', 0), ('scale-chain', 0)],
+        [('corpus', 0), ('layout', 30000), ('enum', 5000), ('scale-layout', 0), ('scale-chain', 0)],
         PARSE,
         'whitespace clause proved for ASCII inputs (any change of the whitespace between and around tokens that removes no existing separator gives the same token stream, hence the same parse result; words ending in a dangling escape excluded = K14); keyword case: the token type of a word is invariant under ASCII letter case; redundant parentheses: two printed trees differing only in parenthesis nodes parse (parser loop + Validate) to the same tree. Not proved: whitespace for non-ASCII input (UTF-8 decoding across a changed boundary), parentheses in arbitrary accepted token sequences that are not printed trees (K15 lives there); both decided by C09_check on variant pairs.',
         'variant pairs (whitespace fillings incl. tabs/newlines/none, keyword case, redundant parentheses) of random trees and of arbitrary token sequences',
         '', []),
     'C10': P(
         ['C10_parse_all_or_nothing', 'C10_returned_tree_wellformed', 'C10_to_postgres_shape', 'C10_to_param_postgres_shape'],
-        [('corpus', 0), ('enum', 1500), ('rand', 5000), ('lex', 1500), ('nearmiss', 0)],
-        [('corpus', 0), ('enum', 30000), ('rand', 80000), ('lex', 20000)],
+        [('corpus', 0), ('enum', 1500), ('rand', 5000), ('lex', 1500), ('nearmiss', 0), ('scale-list', 0), ('scale-giant', 0), ('scale-digits', 0)],
+        [('corpus', 0), ('enum', 30000), ('rand', 80000), ('lex', 20000), ('scale-list', 0), ('scale-giant', 0), ('scale-digits', 0)],
         PARSE + ['ToPostgres', 'ToParameterizedPostgres'],
         'full: Parse returns a tree xor an error; every returned tree passes Validate and the independent shape predicate; ToPostgres/ToParameterizedPostgres result shapes.',
         'token sequences, random and damaged queries, random bytes; non-trivial = accepted',
         '', ['oracle fact: %v of a float64 is non-empty']),
     'C11': P(
         ['C11_default_field_scopes_bare_terms', 'C11_parse_with_default_field'],
-        [('corpus', 0), ('dfield', 4000)],
-        [('corpus', 0), ('dfield', 60000), ('enum', 5000)],
+        [('corpus', 0), ('dfield', 4000), ('scale-names', 0)],
+        [('corpus', 0), ('dfield', 60000), ('enum', 5000), ('scale-names', 0)],
         PARSE,
         'full: for every input string whose terms do not denote f, Parse with the default field f = Parse without it followed by scope f (same acceptance, exactly the scoped tree); scope f touches bare operands only.',
         'pairs (without / with a default field that does not occur in the query) of random trees and token sequences, field names needing quoting',
         '', []),
     'C12': P(
         ['C12_encode_returns', 'C12_decode_encode_roundtrip', 'C12_atoi_itoa', 'C12_int_leaf_roundtrip', 'C12_string_leaf_roundtrip', 'C12_operator_names_roundtrip', 'C12_operator_names_total', 'C12_decoder_uses_from_string'],
-        [('corpus', 0), ('rand', 6000), ('trees', 2000)],
-        [('corpus', 0), ('rand', 80000), ('trees', 30000)],
+        [('corpus', 0), ('rand', 6000), ('trees', 2000), ('scale-digits', 0), ('scale-values', 0), ('scale-list', 0), ('scale-names', 0)],
+        [('corpus', 0), ('rand', 80000), ('trees', 30000), ('scale-digits', 0), ('scale-values', 0), ('scale-list', 0), ('scale-names', 0)],
         PARSE + ['Marshal'] + JSONRT,
         'encoder total; operator names round-trip; decode(encode e) = e proved for every tree of the parser shape whose leaves have the kind the decoder infers (Spec/Inferable.ki_b) under three stated facts about encoding/json, strconv and the textual boundary heuristic on the encoder own output; the syntax tree of the encoder output (Spec/Cst.v) is compared with the implementation bytes per case. Decided per accepted query by C12_check: the clauses for trees outside ki_b (identical bytes / print / SQL after the round trip when leaf kinds change: quoted patterns, integer-valued floats = K12) and that Parse results which are not listed exceptions satisfy ki_b.',
         'every accepted generated query is encoded, decoded, re-encoded and re-rendered; non-trivial = accepted and encoded',
         '', ['oracle fact: ParseFloat rejects a text starting with a double quote']),
     'C13': P(
         ['C13_decode_never_panics', 'C13_decode_fuel_free', 'C13_validated_renders'],
-        [('json', 6000)],
-        [('json', 100000)],
+        [('json', 6000), ('scale-names', 0), ('scale-values', 0)],
+        [('json', 100000), ('scale-names', 0), ('scale-values', 0)],
         UNTRUSTED,
         'full over well-formed JSON: decoder never panics for any syntax tree; decoded and validated trees never panic any renderer. Bytes that are not JSON never reach the library (encoding/json checks validity first): exercised, not proved.',
         'encoder output, mutated documents (case/escape variant keys, swapped operators, nulls, wrong types), random documents over the schema, non-JSON bytes; non-trivial = decoded and validated',
@@ -148,16 +148,16 @@ PROPS = {
         ['Go race detector'], level='other', custom=True),
     'C15': P(
         ['C15_missing_function_fails', 'C15_traced_fold_is_render', 'C15_calls_are_the_nodes_in_postorder', 'C15_override_is_local', 'C15_postgres_render_is_the_fold', 'C15_postgres_table_is_the_generated_one', 'C15_fuzzy_boost_unsupported', 'C15_to_postgres_rejects_fuzzy_boost'],
-        [('corpus', 0), ('custom', 5000), ('rand', 3000), ('nearmiss', 0)],
-        [('corpus', 0), ('custom', 80000), ('rand', 30000), ('nearmiss', 0)],
+        [('corpus', 0), ('custom', 5000), ('rand', 3000), ('nearmiss', 0), ('scale-list', 0), ('scale-chain', 0)],
+        [('corpus', 0), ('custom', 80000), ('rand', 30000), ('nearmiss', 0), ('scale-list', 0), ('scale-chain', 0)],
         ['parse'] + CUSTOM + ['ToPostgres', 'ToParameterizedPostgres'],
         'full on the model: for every table of functions Render is the traced fold (calls = nodes in post-order, each once, children before parent, left before right), a missing function anywhere makes it fail, an override is invisible where its operator does not occur; the postgres Render is that fold with the generated table, which has no function for FUZZY/BOOST, so both SQL entry points fail on every tree containing one. The Go Render is tied to render_tr by tracing functions (output and call log compared per case) and by the driver-isolation scenario.',
         'random trees x function tables (all tracing, one operator removed, one overridden, both); non-trivial = tree rendered or correctly refused',
         '', []),
     'C16': P(
         ['C16_next_token_lossless', 'C16_stream_is_a_segmentation', 'C16_finitely_many_tokens', 'C16_lexical_error_rejects', 'C16_peek_is_next', 'C16_eof_forever'],
-        [('lex', 8000), ('corpus', 0)],
-        [('lex', 150000), ('corpus', 0)],
+        [('lex', 8000), ('corpus', 0), ('scale-layout', 0), ('scale-values', 0)],
+        [('lex', 150000), ('corpus', 0), ('scale-layout', 0), ('scale-values', 0)],
         LEX + ['parse'],
         'full: lossless segmentation, termination, error stops, error rejects, Peek = next read in every reachable state, EOF forever after the end or an error, all for every rune classification. The Lexer-object model (lstate/lnext/lpeek) is tied to lex.go by Next/Peek scripts; backup() via DecodeLastRune is modelled as undoing the last next, not verified.',
         'byte strings over an alphabet with multi-byte runes, invalid UTF-8, NUL, every delimiter, with Next/Peek scripts; non-trivial = stream reached EOF or an error',
